@@ -170,6 +170,41 @@ Theorem C05_discr_nofield : forall variants v,
 Proof. exact discr_nofield_outcomes. Qed.
 Print Assumptions C05_discr_nofield.
 
+(* ---------------------------------------------------------------- discriminator registry (lazy fill) *)
+(* one call in ANY registry state reachable from the empty one: outcome = history-free spec *)
+Theorem C05_discr_call_history_free : forall field vs reg v, reg_inv vs reg ->
+  fst (discr_call field vs reg v) = discr_spec field vs v /\ reg_inv vs (snd (discr_call field vs reg v)).
+Proof. exact discr_call_spec. Qed.
+Print Assumptions C05_discr_call_history_free.
+
+(* every call history on a fresh hierarchy: the n-th outcome is the history-free one *)
+Theorem C05_discr_history : forall field vs inputs,
+  discr_history field vs [] inputs = map (discr_spec field vs) inputs.
+Proof. intros field vs inputs. apply discr_history_spec. apply reg_inv_nil. Qed.
+Print Assumptions C05_discr_history.
+
+(* the chosen variant's own outcome -- MissingField, InvalidFieldValue, ExtraKeysError, an instance --
+   propagates unchanged on the first call for a tag (register-and-retry path) and on every later call;
+   only a KeyError raised by the variant itself (user code) is turned into SuitableVariantNotFoundError *)
+Theorem C05_discr_variant_outcome_propagates : forall field vs reg kvs s dec,
+  reg_inv vs reg ->
+  d_lookup kvs (VStr field) = Some (VStr s) -> owner vs s = Some dec ->
+  dec (VDict kvs) <> Exn XKeyError ->
+  fst (discr_call field vs reg (VDict kvs)) = dec (VDict kvs).
+Proof. exact discr_variant_outcome_propagates. Qed.
+Print Assumptions C05_discr_variant_outcome_propagates.
+
+(* Event(kind) / Click(x, y required): first call lacks y -> MissingField('y', Click), not SuitableVariantNotFound *)
+Definition click_dec : pv -> res pv := fun v =>
+  match py_get v "y" with Ok (Some _) => Ok (VObj "Click" []) | _ => Exn (XMissingField "y" "Click") end.
+Example C05_ex_first_call_missing_field :
+  discr_history "kind" [(Some "click", click_dec); (Some "key", fun _ => Ok VNone)] []
+    [VDict [(VStr "kind", VStr "click"); (VStr "x", VInt 1)];
+     VDict [(VStr "kind", VStr "click"); (VStr "x", VInt 1)];
+     VDict [(VStr "kind", VStr "nope")]]
+  = [Exn (XMissingField "y" "Click"); Exn (XMissingField "y" "Click"); Exn XNoVariant].
+Proof. reflexivity. Qed.
+
 (* ---------------------------------------------------------------- non-vacuity *)
 (* class A(a: int, b: Optional[date] = None, c: Any = 7); int("x") raises ValueError,
    date.fromisoformat(5) raises TypeError: both become InvalidFieldValue; order decides *)
